@@ -3,7 +3,7 @@
     src/Natural_Units.cpp on every run. *)
 From Coq Require Import String.
 From Coq Require Import ZArith Bool Reals List.
-From LP Require Import Num NumR C20_Model C20_Proofs_Init Gen_C20_Units C20_Proofs_Units C20_Proofs_IO C20_Proofs_Round C20_Proofs_Session.
+From LP Require Import Num NumR C20_Model C20_Proofs_Init Gen_C20_Units C20_Proofs_Units C20_Proofs_IO C20_Proofs_Round C20_Proofs_Session C20_Proofs_Exists C20_Proofs_Repeat.
 Import ListNotations.
 
 (** "whichever compiler and optimisation level built the library": for ANY classification [st] of the
@@ -343,3 +343,52 @@ Print Assumptions C20_session_function_range_roundtrip.
 (** non-vacuity: x -> x*x tabulated at 1, 2, 2, 3 over an older table at the same path; four rows read back, five lines *)
 Example C20_session_function_example : session_function_example_stmt.
 Proof. exact session_function_example. Qed.
+
+(** ---------------------------------------------------------------------------------------------------------
+    Sixth pass: File_Exists as a call of a session, and sessions that repeat a block of calls.
+
+    The round trip is claimed "for any finite values and units" — in any program, also one that asks File_Exists(path)
+    before importing (the usual idiom) and one that runs for a long time.  In the model File_Exists is stat(): it opens
+    nothing, keeps nothing, changes nothing.  TRANSPARENCY: deleting every File_Exists call from ANY session gives a session
+    that ends in the same way (terminated or not, same kind of termination), in the same file system, with the same answers
+    of all other calls.  (That the library's File_Exists holds no per-process resource either is tested, not proved:
+    `lsession` cases under a lowered descriptor limit.) *)
+Theorem C20_file_exists_transparent {T} (Ops : NumOps T) (fmt6 : T -> T) (ops : list (@io_op T)) (fs : @fsys T) :
+  io_run Ops fmt6 fs (without_fe ops) = rmap (fun s => (fst s, without_bool (snd s))) (io_run Ops fmt6 fs ops).
+Proof. exact (file_exists_transparent Ops fmt6 ops fs). Qed.
+Print Assumptions C20_file_exists_transparent.
+
+(** its own answer: (a) any calls [before], a call [e] exporting to p (list, table, function list or range), ANY calls
+    [after] — further exports to p included —, none terminating the process, then File_Exists(p): true;
+    (b) after any calls none of which exports to p, File_Exists(p) answers as it would have at the start. *)
+Theorem C20_file_exists_answer {T} (Ops : NumOps T) (fmt6 : T -> T) (fs : @fsys T) p :
+  (forall before fs1 outs1 e fs2 r after fs3 outs3,
+     io_run Ops fmt6 fs before = Ok (fs1, outs1) -> writes e = Some p -> io_step Ops fmt6 fs1 e = Ok (fs2, r) ->
+     io_run Ops fmt6 fs2 after = Ok (fs3, outs3) ->
+     io_run Ops fmt6 fs (before ++ e :: after ++ [OFileExists p]) = Ok (fs3, outs1 ++ r :: outs3 ++ [RBool true])) /\
+  (forall ops fs1 outs1,
+     io_run Ops fmt6 fs ops = Ok (fs1, outs1) -> Forall (fun o => writes o <> Some p) ops ->
+     io_run Ops fmt6 fs (ops ++ [OFileExists p]) = Ok (fs1, outs1 ++ [RBool (file_exists (fs_get fs p))])).
+Proof.
+  exact (conj (fun before fs1 outs1 e fs2 r after fs3 outs3 => file_exists_after_export Ops fmt6 fs before fs1 outs1 e fs2 r p after fs3 outs3)
+              (fun ops fs1 outs1 => file_exists_before_export Ops fmt6 fs ops fs1 outs1 p)).
+Qed.
+Print Assumptions C20_file_exists_answer.
+
+Example C20_file_exists_example : exists_example_stmt.
+Proof. exact exists_example. Qed.
+
+(** REPETITION (long sessions).  A block of calls — exports, imports, line counts, File_Exists, over any paths — is made in
+    a process and then a second time, neither terminating it.  Then it can be made ANY number n of further times: the
+    process is never terminated, every repetition gives exactly the answers of the second one, and every path holds what
+    the first time left there.  (Induction over n; the invariants: a call sees the file system only through the file at its
+    path, and what a call writes does not depend on what the file system held.)  The first time may answer differently —
+    it sees the files the process started with (Example below: File_Exists false, then true). *)
+Theorem C20_session_repetition {T} (Ops : NumOps T) (fmt6 : T -> T) (block : list (@io_op T)) (fs fs1 fs2 : @fsys T) outs1 outs2 :
+  io_run Ops fmt6 fs block = Ok (fs1, outs1) -> io_run Ops fmt6 fs1 block = Ok (fs2, outs2) ->
+  forall n, exists fsn, io_run Ops fmt6 fs (block ++ times n block) = Ok (fsn, outs1 ++ times n outs2) /\ fs_eq fsn fs1.
+Proof. exact (session_repetition Ops fmt6 block fs fs1 outs1 fs2 outs2). Qed.
+Print Assumptions C20_session_repetition.
+
+Example C20_session_repetition_example : repetition_example_stmt.
+Proof. exact repetition_example. Qed.
